@@ -38,7 +38,7 @@ PROBES = ["tool_isolated", "layout_contiguous", "layout_chunked", "layout_gzip",
           "basin_internal", "basin_file", "basin_mapped", "basin_multi_defs", "basin_via_writer", "defective_feature_dropped",
           "unknown_feature_dropped", "strip_logs", "strip_basins", "chain_compress_compress", "chain_repack_compress",
           "chain_other", "idempotence_checked", "compress_log_renamed", "condense_basin_feature", "condense_ancillary_feature",
-          "condense_internal_basin_feature", "tdms_converted", "empty_feature_dataset", "empty_events_group",
+          "condense_internal_basin_feature", "internal_basin_shadows_computable", "tdms_converted", "empty_feature_dataset", "empty_events_group",
           "basin_feature_compared", "model_input", "layout_input"]
 COMPONENTS = {
     "real": ["dclab.cli compress/repack/condense/tdms2rtdc", "dclab.rtdc_dataset.copier (rtdc_copy, h5ds_copy, basin_definition_copy)",
@@ -540,6 +540,16 @@ class World:
             if pr.random() < 0.3:
                 feats.append("image_bg")
                 lay.dataset(be, "image_bg", rs.integers(0, 255, size=(mi, 8, 12)).astype(np.uint8))
+            if pr.random() < 0.4 and "ml_class" not in h["events"]:
+                # a curated classification in the internal basin next to the scores it could be recomputed from
+                # (never together with a stored ml_class: a feature held in /events and in /basin_events at once
+                #  is not a layout dclab writes; the copier then keeps the /events one only)
+                feats.append("ml_class")
+                lay.dataset(be, "ml_class", (5 + rs.integers(0, 3, size=mi)).astype(np.int64))
+                for sc in ("ml_score_abc", "ml_score_xyz"):
+                    if sc not in h["events"]:
+                        lay.dataset(h["events"], sc, rs.uniform(0.05, 0.95, size=n))
+                ctx.probe("internal_basin_shadows_computable")
             lay.dataset(h["events"], "basinmap0", rs.integers(0, mi, size=n).astype(np.uint64))
             define({"description": None, "format": "h5dataset", "name": "internal", "type": "internal",
                     "features": sorted(feats), "mapping": "basinmap0", "paths": ["basin_events"]})
@@ -1068,6 +1078,8 @@ class World:
         with quiet():
             ds0 = dclab.new_dataset(self.dir / pin, enable_basins=False)
             dsb = dclab.new_dataset(self.dir / pin) if sbf else ds0
+            # what a user of the input file sees (basins enabled): the reference for every value
+            dsu = dsb if sbf else dclab.new_dataset(self.dir / pin)
         try:
             with ctx.sut("C08.condense.compare", sig={"what": "raises"}, fatal=False), quiet(), \
                     h5py.File(self.dir / pout, "r") as ho:
@@ -1088,7 +1100,7 @@ class World:
                             required[f] = ("computed", dsb)
                 for f, (kind, dsx) in sorted(required.items()):
                     with ctx.sut("C08.condense.read_input", sig={"what": kind}, fatal=False) as sr:
-                        exp = np.asarray(dsx[f][:])
+                        exp = np.asarray((dsu if f in dsu else dsx)[f][:])
                     if sr.exc is not None:
                         continue
                     ctx.checked()
@@ -1139,6 +1151,8 @@ class World:
                 ds0.close()
                 if dsb is not ds0:
                     dsb.close()
+                if dsu is not dsb:
+                    dsu.close()
         return True
 
     # ---------------- tdms2rtdc ----------------
